@@ -1,6 +1,13 @@
 package main
 
 import (
+	"crypto/rsa"
+	encasn1 "encoding/asn1"
+	crand "crypto/rand"
+	"time"
+	"math/big"
+	"crypto/x509/pkix"
+	"crypto/x509"
 	"errors"
 	"fmt"
 	"strings"
@@ -62,7 +69,11 @@ func init() {
 				}
 			case "S":
 				db := parseDbArg(f[4])
-				if err := e.WriteSignedUpdate(v, &db, key, cert); err != nil {
+				sc := cert
+				if len(f) > 5 && f[5] == "fat" {
+					sc = storeFatCert(key, cert)
+				}
+				if err := e.WriteSignedUpdate(v, &db, key, sc); err != nil {
 					obs = append(obs, "!signed")
 				} else {
 					obs = append(obs, "-")
@@ -112,6 +123,22 @@ func init() {
 	}
 }
 
+// storeFatCert: a signing certificate so large that the signed update's WIN_CERTIFICATE exceeds 64 KiB.
+func storeFatCert(key *rsa.PrivateKey, fallback *x509.Certificate) *x509.Certificate {
+	tmpl := x509.Certificate{SerialNumber: big.NewInt(77), Subject: pkix.Name{CommonName: "store signer (large certificate)"},
+		NotBefore: time.Now().Add(-time.Hour), NotAfter: time.Now().Add(24 * time.Hour),
+		ExtraExtensions: []pkix.Extension{{Id: encasn1.ObjectIdentifier{1, 3, 6, 1, 4, 1, 99999, 1}, Value: append([]byte{0x04, 0x83, 0x01, 0x11, 0x70}, make([]byte, 70000)...)}}}
+	der, err := x509.CreateCertificate(crand.Reader, &tmpl, &tmpl, &key.PublicKey, key)
+	if err != nil {
+		return fallback
+	}
+	c, err := x509.ParseCertificate(der)
+	if err != nil {
+		return fallback
+	}
+	return c
+}
+
 func runC12(c *Ctx) {
 	rng := c.Rng
 	n := c.N(250, 15000)
@@ -132,9 +159,11 @@ func runC12(c *Ctx) {
 		{"SetupMode", global, 6, false},
 		{"LoaderEntrySelected", *efivar.LoaderEntrySelected.GUID, 6, false},
 		{"Custom", util.EFIGUID{Data1: 0xdeadbeef, Data2: 1, Data3: 2, Data4: [8]byte{1, 2, 3, 4, 5, 6, 7, 8}}, 7, false},
+		{"NoAttrs", util.EFIGUID{Data1: 0xdeadbeef, Data2: 1, Data3: 2, Data4: [8]byte{1, 2, 3, 4, 5, 6, 7, 8}}, 0, false},
 	}
 	key := rsaKey(2048, 0)
 	cert := simpleCert(key, "store signer", 7)
+	fatCert := storeFatCert(key, cert)
 	for i := 0; i < n; i++ {
 		u := newSigUniverse(rng)
 		genDb := func() signature.SignatureDatabase {
@@ -195,12 +224,20 @@ func runC12(c *Ctx) {
 				}
 				if rng.Intn(2) == 0 {
 					// signed update: the model is given a descriptor of its own making
-					_, m, err := signature.SignEFIVariable(varByName(v.name, v.g, at), &db, key, cert)
+					sc := cert
+					if i%40 == 7 {
+						sc = fatCert
+					}
+					_, m, err := signature.SignEFIVariable(varByName(v.name, v.g, at), &db, key, sc)
 					if err != nil {
 						continue
 					}
 					value = m.Bytes()
-					implOpsL = append(implOpsL, fmt.Sprintf("S^%s^%s^%d^%s", nm, ga, at, dbArg(db)))
+					fat := ""
+					if sc == fatCert {
+						fat = "^fat"
+					}
+					implOpsL = append(implOpsL, fmt.Sprintf("S^%s^%s^%d^%s%s", nm, ga, at, dbArg(db), fat))
 				} else {
 					value = db.Bytes()
 					implOpsL = append(implOpsL, fmt.Sprintf("D^%s^%s^%d^%s", nm, ga, at, dbArg(db)))
